@@ -8,9 +8,10 @@
 (*       returned the records it collected                                 *)
 (*       src      "pred" if its manifest names the predecessor's data.csv  *)
 (*                as actual input, "orig" if the registered file, else "?" *)
-(*  kind "refs":  [tid, kind, vars, lines, headers, refs]                  *)
-(*     vars/lines/headers: what the referenced member's most recent run    *)
-(*     left (final variables, collected lines, header names);              *)
+(*  kind "refs":  [tid, kind, mvars, lines, headers, refs]                 *)
+(*     mvars: the final variables of each member of the referenced group's *)
+(*     most recent run, in run order; lines/headers: what its (only)       *)
+(*     member collected and its header names;                              *)
 (*     refs[i] = [what ("variable"|"header"), name, key, got]              *)
 (* (That each stage returns the right subset of what it is shown is        *)
 (* RunTrace's business: every stage trace is validated there against the   *)
@@ -41,9 +42,15 @@ StageDiff(m) ==
 HeaderIdx(headers, h) == IF \E j \in 1..Len(headers) : headers[j] = h
                            THEN CHOOSE j \in 1..Len(headers) : headers[j] = h /\ \A x \in 1..(j-1) : headers[x] # h
                            ELSE 0
+\* the group's variables: the members share one namespace, a later member's assignment overwrites an earlier one's
+\* (docs/variables.md "Sharing Variables Between CsvPath Instances")
+RECURSIVE Merge(_, _)
+Merge(acc, vs) == IF vs = <<>> THEN acc ELSE Merge(SetVar(acc, Head(vs).n, Head(vs).v), Tail(vs))
+RECURSIVE GroupVars(_, _)
+GroupVars(acc, ms) == IF ms = <<>> THEN acc ELSE GroupVars(Merge(acc, Head(ms)), Tail(ms))
 RefExpected(r) ==
   IF r.what = "variable"
-    THEN LET v == GetVar(Case.vars, r.name) IN
+    THEN LET v == GetVar(GroupVars(<<>>, Case.mvars), r.name) IN
            IF r.key = <<>> THEN v ELSE DGet(v, VStr(r.key))
     ELSE LET ix == HeaderIdx(Case.headers, r.hname)
              has == SelectSeq(Case.lines, LAMBDA l : Len(l) >= ix)
